@@ -120,7 +120,10 @@ Proof. exact parse_blocks_from. Qed.
         and before every `done` (each line its own indentation, no discipline required; none trailing:
         command lines, conditions and word lists still do not end with white space),
       - blank lines (empty, or spaces / tabs only) anywhere a statement may stand, bodies included.
-    NOT in the fragment: the `; then` / `; do` spelling (C14_parse_instances + L1b).
+      - (second half of round 9) the `; then` / `; do` spelling of any head (`if c; then`, `else if c; then`,
+        `while c; do`, `for v in ws; do` -- one blank after the `;`, as render_stmt spells it), freely mixed
+        with the newline spelling.
+    Conditions / word lists still hold no `;` of their own (cond_ok).
     For every such script the generic PEG interpreter on the regenerated grammar returns, for all
     sufficiently large fuel, the complete parse whose trimmed, EOI-stripped tree is tree_of_script
     (a calculus of parses that may stop inside a run of blanks -- pest's unrolled e+ leaves the span of a
@@ -134,6 +137,19 @@ Proof. exact parse_indented. Qed.
 Theorem C14_parse_indented_from : forall b, fragI_block b = true ->
   parse_from l_grammar L_EXP (render_block b) = PFuel \/ parse_ok b.
 Proof. exact parse_indented_from. Qed.
+
+(** the `; then` / `; do` spelling: fragI_block puts no constraint on the spelling flag of a head, so the
+    statement is the one above; named separately because the task names it. wit1 / wit2 (both spellings,
+    tabs / spaces, blank lines -- until now only computed instances) are in the fragment. *)
+Theorem C14_parse_semicolon : forall b, fragI_block b = true ->
+  parse_from l_grammar L_EXP (render_block b) = PFuel \/ parse_ok b.
+Proof. exact parse_indented_from. Qed.
+Example C14_parse_semicolon_nonvacuous :
+  fragI_block wit1 = true /\ fragI_block wit2 = true /\
+  fragI_block (BCons (SIf i0 true (S2 "test -f x") (BCons (SCmd i2 (S2 "echo y")) BNil)
+                        (AElif i0 true (S2 "false") (BCons (SWhile i2 true (S2 "seq k 0,1") (BCons (SBreak it) BNil)) BNil)
+                        (ANone i0))) BNil) = true.
+Proof. vm_compute. repeat split. Qed.
 
 (** the round-3 fragment is the special case without indentation and blank lines *)
 Theorem C14_parse_indented_extends : forall b, frag_block b = true -> fragI_block b = true.
@@ -327,6 +343,7 @@ Print Assumptions C14_parse_partial_from.
 Print Assumptions C14_parse_indented.
 Print Assumptions C14_parse_indented_from.
 Print Assumptions C14_parse_indented_extends.
+Print Assumptions C14_parse_semicolon.
 Print Assumptions C14_parse_while_pos.
 Print Assumptions C14_parse_instances.
 Print Assumptions C14_anchor_sound.
